@@ -145,3 +145,19 @@ Definition equal_num (a b : dec) : bool := text_eqb (render a) (render b).
 
 (* a number against a text: the text operand is compared as it is (1 = "1.0" is false, 1 = "1" is true) *)
 Definition equal_num_text (a : dec) (s : text) : bool := text_eqb (render a) s.
+
+(* ------------------------------------------------------------------------------------------------ *)
+(* the JSON form of a number inside stored values (flows.Value.Number in contact fields, session JSON):
+   XNumber.MarshalJSON writes decimal.String() (decimal.MarshalJSONWithoutQuotes), XNumber.UnmarshalJSON reads the
+   token with decimal.NewFromString and refuses an exponent beyond max(1000, length of the token): whatever is
+   written out in full is readable, a short text in exponent notation with a huge exponent is not *)
+Definition num_marshal (d : dec) : text := render d.
+
+Definition stored_exp_ok (len : nat) (e : Z) : bool :=
+  let limit := Z.max 1000 (Z.of_nat len) in ((- limit <=? e) && (e <=? limit))%Z.
+
+Definition num_unmarshal (s : text) : option dec :=
+  match new_from_string s with
+  | Some d => if stored_exp_ok (length s) (dexp d) then Some d else None
+  | None => None
+  end.
